@@ -148,16 +148,16 @@ def hypothesis_inputs(seed, n):
 
   def extend(children):
     return st.one_of(
-      st.lists(children, max_size=4).map(lambda vs: ["arr", vs]),
+      st.lists(children, max_size=5).map(lambda vs: ["arr", vs]),
       st.dictionaries(key, children, max_size=3).map(lambda d: ["obj", [[k, d[k]] for k in d]]))
 
-  tree = st.recursive(scalar, extend, max_leaves=16)
+  tree = st.recursive(scalar, extend, max_leaves=30)
 
   @st.composite
   def inputs(draw):
     t = draw(tree)
     if draw(st.integers(0, 3)) > 0 and t[0] not in ("arr", "obj"):
-      t = ["arr", draw(st.lists(tree, max_size=4))]
+      t = ["arr", draw(st.lists(tree, max_size=5))]
     paths = paths_of(t, ["T"]) or [["T"]]
 
     def option():
